@@ -44,7 +44,13 @@ FLAVOURS = {
              "-Wl,--wrap=malloc,--wrap=calloc,--wrap=realloc,--wrap=free"),
     # library as a shared object (writable-segment snapshot, C17)
     "pic-so": ("-O2 -g -fPIC -DDEBUG=true", "-O2 -g -DVH_PICSO=1", ""),
+    # clang MemorySanitizer: library and harness are the whole program (plain C, only libc/libm outside), so every
+    # value that reaches a branch or a pointer dereference is tracked; catches reads of uninitialised memory that ASan cannot see
+    "msan": ("-O1 -g -fno-omit-frame-pointer -fsanitize=memory -fsanitize-memory-track-origins=1 -DDEBUG=true",
+             "-O1 -g -fno-omit-frame-pointer -fsanitize=memory -fsanitize-memory-track-origins=1 -Wno-unknown-warning-option -Wno-gnu-zero-variadic-macro-arguments",
+             "-fsanitize=memory"),
 }
+FLAVOUR_CC = {"msan": "clang"}
 
 STRIP_PREFIXES = ("-O", "-flto", "-fno-fat-lto-objects", "-g", "-fsanitize", "-fno-sanitize", "-DNDEBUG", "-DDEBUG")
 
@@ -185,6 +191,7 @@ def ensure(flavour, L=2048):
         t0 = time.time()
         cfg = _configure(bdir, L)
         libflags, hflags, ldflags = FLAVOURS[flavour]
+        cc = FLAVOUR_CC.get(flavour, CC)
         objdir = os.path.join(bdir, "obj-%s-%d" % (flavour, L))
         shutil.rmtree(objdir, ignore_errors=True)
         os.makedirs(objdir)
@@ -195,7 +202,7 @@ def ensure(flavour, L=2048):
         for src, keep, cwd in cmds:
             o = os.path.join(objdir, "lib_" + os.path.relpath(src, REPO).replace("/", "_")[:-2] + ".o")
             libobjs.append(o)
-            jobs.append(([CC] + keep + shlex.split(libflags) + ["-c", src, "-o", o], cwd))
+            jobs.append(([cc] + keep + shlex.split(libflags) + ["-c", src, "-o", o], cwd))
             for a in keep:
                 if (a.startswith("-I") or a.startswith("-D")) and a not in incs:
                     incs.append(a)
@@ -206,7 +213,7 @@ def ensure(flavour, L=2048):
             o = os.path.join(objdir, "h_" + fn[:-2] + ".o")
             hobjs.append(o)
             extra = []
-            jobs.append(([CC, "-std=gnu11", "-Wall", "-Wextra", "-Wno-format-truncation", "-Wno-unused-parameter"] + shlex.split(hflags) + incs +
+            jobs.append(([cc, "-std=gnu11", "-Wall", "-Wextra", "-Wno-format-truncation", "-Wno-unused-parameter"] + shlex.split(hflags) + incs +
                          ["-I" + HARNESS, "-DVH_REPO_SRC=\"%s\"" % os.path.join(REPO, "src"), "-DVH_L=%d" % L,
                           "-DVH_MEMUTILS_C=\"%s\"" % os.path.join(REPO, "src", "cbor", "internal", "memory_utils.c")] + extra +
                          ["-c", os.path.join(HARNESS, fn), "-o", o], objdir))
@@ -214,12 +221,12 @@ def ensure(flavour, L=2048):
         tmp = exe + ".tmp"
         if flavour == "pic-so":
             so = os.path.join(bdir, "libcbor-picso-%d.so" % L)
-            rc, out = _run([CC, "-shared", "-Wl,-z,relro,-z,now", "-o", so] + libobjs + ["-lm"])
+            rc, out = _run([cc, "-shared", "-Wl,-z,relro,-z,now", "-o", so] + libobjs + ["-lm"])
             if rc != 0:
                 raise BuildError("link (shared) failed:\n" + out[-3000:])
-            link = [CC] + hobjs + [so, "-Wl,-rpath," + bdir, "-lm", "-lpthread", "-ldl", "-o", tmp]
+            link = [cc] + hobjs + [so, "-Wl,-rpath," + bdir, "-lm", "-lpthread", "-ldl", "-o", tmp]
         else:
-            link = [CC] + shlex.split(ldflags) + hobjs + libobjs + ["-lm", "-lpthread", "-ldl", "-o", tmp]
+            link = [cc] + shlex.split(ldflags) + hobjs + libobjs + ["-lm", "-lpthread", "-ldl", "-o", tmp]
         rc, out = _run(link)
         if rc != 0:
             raise BuildError("link failed:\n" + out[-3000:])
